@@ -376,12 +376,17 @@ pub fn dealer_keys<C: Suite>(
     })
 }
 
+/// the tape participant #k (generation order) uses in `dkg_rounds`
+pub fn dkg_part1_tape(seed: u64, k: usize) -> Tape {
+    Tape::random(seed ^ (0xd6_0000 + k as u64).wrapping_mul(0x9e37_79b9))
+}
+
 /// run parts 1 and 2 of the DKG for all participants (no part 3)
 pub fn dkg_rounds<C: Suite>(shape: Shape, idv: &[Id<C>], seed: u64, key: &str) -> Result<DkgRun<C>, Failure> {
     let mut r1_secret = BTreeMap::new();
     let mut r1_pkg = BTreeMap::new();
     for (k, id) in idv.iter().enumerate() {
-        let tape = Tape::random(seed ^ (0xd6_0000 + k as u64).wrapping_mul(0x9e37_79b9));
+        let tape = dkg_part1_tape(seed, k);
         match dkg::part1::<C, _>(*id, shape.n, shape.t, tape) {
             Ok((s, p)) => {
                 r1_secret.insert(*id, s);
